@@ -1,4 +1,6 @@
 import AscaVerif.Model.Interp.Apply
+import AscaVerif.Props.C06
+import AscaVerif.Props.C14
 /-! # C03 — a basic sound change rewrites exactly the positions its environment selects
 
 The deciding machinery for C03 at this stage: the executable port of the interpreter (`Model/Interp/*`), compared
@@ -134,5 +136,484 @@ example :
     let e : Seg := { root := 3#8, manner := 192#8, laryngeal := 4#8, place := some 41096#16 }
     let tt : Seg := { root := 4#8, manner := 0#8, laryngeal := 0#8, place := some 16896#16 }
     (rewriteRun { segs := [tt, a, a] } 1 e).segs = [tt, e] := by decide
+
+
+/-! ## the whole scan of a basic rule `a > t` rewrites only runs of `a`, into `t` -/
+
+/-- `w'` results from `w` by rewriting, one after another, runs that begin with `a` into the single segment `t` -/
+inductive Rewrites (a t : Seg) : Word → Word → Prop where
+  | refl (w : Word) : Rewrites a t w w
+  | step (w w1 : Word) (sp : SegPos) (σ : Syll) : Rewrites a t w w1 → w1.sylls[sp.si]? = some σ → σ.segs[sp.gi]? = some a →
+      Rewrites a t w (setSyll w1 sp.si (rewriteRun σ sp.gi t))
+
+/-- no syllable is empty -/
+def NoEmptySyll (w : Word) : Prop := ∀ τ ∈ w.sylls, τ.segs ≠ []
+
+theorem noEmptySyll_step (w : Word) (sp : SegPos) (σ : Syll) (t : Seg) (h : NoEmptySyll w) (hgi : sp.gi < σ.segs.length) :
+    NoEmptySyll (setSyll w sp.si (rewriteRun σ sp.gi t)) := by
+  intro τ hτ
+  simp only [setSyll] at hτ
+  rcases List.mem_or_eq_of_mem_set hτ with h1 | h1
+  · exact h τ h1
+  · rw [h1]
+    intro hnil
+    have h0 : (rewriteRun σ sp.gi t).segs.length = 0 := by rw [hnil]; rfl
+    have := removeN_keeps_prefix σ.segs sp.gi (σ.segLengthAt sp.gi - 1) hgi
+    simp only [rewriteRun, List.length_set] at h0
+    omega
+
+/-- what a rewriting chain preserves: the number of syllables and every syllable's stress and tone -/
+theorem rewrites_prosody (a t : Seg) (w w' : Word) (h : Rewrites a t w w') :
+    w'.sylls.length = w.sylls.length ∧
+    ∀ i : Nat, (w'.sylls[i]?).map (fun σ : Syll => (σ.stress, σ.tone)) = (w.sylls[i]?).map (fun σ : Syll => (σ.stress, σ.tone)) := by
+  induction h with
+  | refl => exact ⟨rfl, fun _ => rfl⟩
+  | step w1 sp σ _ hσ _ ih =>
+    obtain ⟨hl, hp⟩ := ih
+    refine ⟨by simp [setSyll, hl], ?_⟩
+    intro i
+    rw [← hp i]
+    have hlen : sp.si < w1.sylls.length := (List.getElem?_eq_some_iff.mp hσ).1
+    by_cases hi : i = sp.si
+    · subst hi
+      simp [setSyll, hσ, List.getElem?_set_self hlen, rewriteRun]
+    · simp [setSyll, List.getElem?_set_ne (Ne.symm hi)]
+
+/-- the scan of `input_match_at` for a single literal: no match, out of fuel, or exactly one captured position, in
+    bounds, holding the literal -/
+theorem scan_literal (w : Word) (a : Seg) :
+    ∀ (fuel : Nat) (cur : SegPos) (b : Binds),
+      (∃ b', inMatchAtLoop [.ipa a none] fuel w cur none 0 [] b = .ok ([], none, none, false, b')) ∨
+      (∃ site, inMatchAtLoop [.ipa a none] fuel w cur none 0 [] b = .outOfFuel site) ∨
+      (∃ p nx b', inMatchAtLoop [.ipa a none] fuel w cur none 0 [] b = .ok ([.segment p none], some nx, none, true, b') ∧
+          w.inB p = true ∧ w.segAt p = some a) := by
+  intro fuel
+  induction fuel with
+  | zero => intro cur b; right; left; exact ⟨_, rfl⟩
+  | succ fuel ih =>
+    intro cur b
+    cases hb : w.inB cur with
+    | false => left; exact ⟨b, by simp [inMatchAtLoop, hb]⟩
+    | true =>
+      cases fuel with
+      | zero => right; left; exact ⟨"input_match_item", by simp [inMatchAtLoop, hb, inMatchItem]⟩
+      | succ fuel =>
+        obtain ⟨seg, hseg⟩ := C06.segAt_of_inB w cur hb
+        obtain ⟨L, hL⟩ := C06.segLen_of_inB w cur hb
+        by_cases heq : a = seg
+        · -- a hit: the loop returns at once with this one capture
+          right; right
+          refine ⟨cur, (incN w (L - 1) cur).increment w, b, ?_, hb, by rw [hseg, heq]⟩
+          rw [inMatchAtLoop]
+          simp [hb, inMatchItem, inMatchIpa, hseg, skipRun, hL, heq]
+        · -- a miss: the scan goes on behind this run, with fresh bindings
+          have step : inMatchAtLoop [.ipa a none] (fuel + 1 + 1) w cur none 0 [] b
+              = inMatchAtLoop [.ipa a none] (fuel + 1) w ((incN w (L - 1) cur).increment w) none 0 [] {} := by
+            rw [inMatchAtLoop]
+            simp [hb, inMatchItem, inMatchIpa, hseg, skipRun, hL, heq]
+          rw [step]
+          exact ih _ {}
+
+/-- **soundness of the scan of `a > t`** (one literal in, one literal out, no environment): whatever the word, the
+    sub-rule returns a word obtained by rewriting runs of `a` into `t` and nothing else — same syllables, same stress
+    and tone (`rewrites_prosody`), every other segment in place (`rewriteRun_frame`) — or reports that the fuel given
+    was too small.  It never returns an error, a panic, or a word changed anywhere else. -/
+theorem basic_scan_sound (r : SubRule) (a t : Seg) (hin : r.input = [.ipa a none]) (hout : r.output = [.ipa t none])
+    (hctx : r.context = none) (hexc : r.except = none) (hty : r.ruleType = .substitution) :
+    ∀ (fuel : Nat) (w0 w : Word) (cur : SegPos), NoEmptySyll w → Rewrites a t w0 w →
+      (∃ w', applyLoop r fuel w cur = .ok w' ∧ Rewrites a t w0 w' ∧ NoEmptySyll w') ∨ (∃ site, applyLoop r fuel w cur = .outOfFuel site) := by
+  intro fuel
+  induction fuel with
+  | zero => intro w0 w cur _ _; right; exact ⟨_, rfl⟩
+  | succ fuel ih =>
+    intro w0 w cur hne hrw
+    rcases scan_literal w a fuel cur {} with ⟨b', h⟩ | ⟨site, h⟩ | ⟨p, nx, b', h, hinb, hat⟩
+    · left
+      refine ⟨w, ?_, hrw, hne⟩
+      simp [applyLoop, inputMatchAt, hin, h]
+    · right
+      exact ⟨site, by simp [applyLoop, inputMatchAt, hin, h]⟩
+    · -- a capture at `p`: span, (empty) environment, one substitution step, and on from the returned position
+      obtain ⟨L, hL⟩ := C06.segLen_of_inB w p hinb
+      have hσ : ∃ σ, w.sylls[p.si]? = some σ ∧ p.gi < σ.segs.length ∧ σ.segs[p.gi]? = some a := by
+        unfold Word.inB Word.inBounds at hinb
+        unfold Word.segAt Word.getSegAt at hat
+        cases hs : w.sylls[p.si]? with
+        | none => simp [hs] at hinb
+        | some σ =>
+          simp [hs] at hinb hat
+          exact ⟨σ, rfl, hinb, by simpa using hat⟩
+      obtain ⟨σ, hσ1, hσ2, hσ3⟩ := hσ
+      have hstep := substitution_basic_step r w p t (.ipa a none) σ b' (some nx) hin hout hσ1 hσ2 hne
+      simp only at hstep
+      have hloop : applyLoop r (fuel + 1) w cur
+          = applyLoop r fuel (setSyll w p.si (rewriteRun σ p.gi t)) (({ si := p.si, gi := p.gi } : SegPos).increment (setSyll w p.si (rewriteRun σ p.gi t))) := by
+        rw [applyLoop]
+        simp [inputMatchAt, hin, h, matchSpan, hL, matchContextsAndExceptions, hctx, hexc, envsOf, transform, hty, hstep]
+      rw [hloop]
+      exact ih w0 _ _ (noEmptySyll_step w p σ t hne hσ2) (Rewrites.step w0 w p σ hrw hσ1 hσ3)
+
+/-- the same for `SubRule::apply` started at the beginning of the word -/
+theorem basic_rule_sound (r : SubRule) (a t : Seg) (hin : r.input = [.ipa a none]) (hout : r.output = [.ipa t none])
+    (hctx : r.context = none) (hexc : r.except = none) (hty : r.ruleType = .substitution) (fuel : Nat) (w : Word) (hne : NoEmptySyll w) :
+    (∃ w', applySubRule fuel r w = .ok w' ∧ Rewrites a t w w' ∧ w'.sylls.length = w.sylls.length) ∨ (∃ site, applySubRule fuel r w = .outOfFuel site) := by
+  have hni : r.ruleType ≠ .insertion := by rw [hty]; decide
+  rcases basic_scan_sound r a t hin hout hctx hexc hty fuel w w { si := 0, gi := 0 } hne (Rewrites.refl w) with ⟨w', h1, h2, _⟩ | ⟨site, h⟩
+  · left; exact ⟨w', by simp [applySubRule, hni, h1], h2, (rewrites_prosody a t w w' h2).1⟩
+  · right; exact ⟨site, by simp [applySubRule, hni, h]⟩
+
+
+
+/-- **with any environment**: `a > t / X _ Y | Z _ W` (contexts and exceptions of any shape, matched by the full
+    environment matcher) still rewrites nothing but runs of `a`: if the sub-rule returns a word at all, that word is a
+    rewriting of the input.  The environment decides WHICH occurrences change, never WHAT else changes. -/
+theorem basic_scan_sound_env (r : SubRule) (a t : Seg) (hin : r.input = [.ipa a none]) (hout : r.output = [.ipa t none])
+    (hty : r.ruleType = .substitution) :
+    ∀ (fuel : Nat) (w0 w : Word) (cur : SegPos), NoEmptySyll w → Rewrites a t w0 w →
+      ∀ w', applyLoop r fuel w cur = .ok w' → Rewrites a t w0 w' ∧ NoEmptySyll w' := by
+  intro fuel
+  induction fuel with
+  | zero => intro w0 w cur _ _ w' h; simp [applyLoop] at h
+  | succ fuel ih =>
+    intro w0 w cur hne hrw w' hres
+    rcases scan_literal w a fuel cur {} with ⟨b', h⟩ | ⟨site, h⟩ | ⟨p, nx, b', h, hinb, hat⟩
+    · have : applyLoop r (fuel + 1) w cur = .ok w := by simp [applyLoop, inputMatchAt, hin, h]
+      rw [this] at hres; cases hres; exact ⟨hrw, hne⟩
+    · have : applyLoop r (fuel + 1) w cur = .outOfFuel site := by simp [applyLoop, inputMatchAt, hin, h]
+      rw [this] at hres; cases hres
+    · obtain ⟨L, hL⟩ := C06.segLen_of_inB w p hinb
+      have hσ : ∃ σ, w.sylls[p.si]? = some σ ∧ p.gi < σ.segs.length ∧ σ.segs[p.gi]? = some a := by
+        unfold Word.inB Word.inBounds at hinb
+        unfold Word.segAt Word.getSegAt at hat
+        cases hs : w.sylls[p.si]? with
+        | none => simp [hs] at hinb
+        | some σ =>
+          simp [hs] at hinb hat
+          exact ⟨σ, rfl, hinb, by simpa using hat⟩
+      obtain ⟨σ, hσ1, hσ2, hσ3⟩ := hσ
+      have hloop : applyLoop r (fuel + 1) w cur =
+          (matchContextsAndExceptions fuel r w p (incN w (L - 1) p) true b' >>= fun res =>
+            if !res.1 then applyLoop r fuel w nx
+            else (transform fuel r w [.segment p none] (some nx) res.2 >>= fun x =>
+              match x.2.1 with
+              | some ci => applyLoop r fuel x.1 ci
+              | none => .ok x.1)) := by
+        rw [applyLoop]
+        simp [inputMatchAt, hin, h, matchSpan, hL]
+        rfl
+      rw [hloop] at hres
+      cases hm : matchContextsAndExceptions fuel r w p (incN w (L - 1) p) true b' with
+      | ok res =>
+        obtain ⟨okb, b2⟩ := res
+        rw [hm] at hres
+        simp only [Outcome.bind_ok] at hres
+        cases okb with
+        | false =>
+          simp only [Bool.not_false, if_true] at hres
+          exact ih w0 w nx hne hrw w' hres
+        | true =>
+          simp only [Bool.not_true, Bool.false_eq_true, if_false] at hres
+          have hstep := substitution_basic_step r w p t (.ipa a none) σ b2 (some nx) hin hout hσ1 hσ2 hne
+          simp only at hstep
+          simp only [transform, hty, hstep, Outcome.bind_ok] at hres
+          exact ih w0 _ _ (noEmptySyll_step w p σ t hne hσ2) (Rewrites.step w0 w p σ hrw hσ1 hσ3) w' hres
+      | err e => rw [hm] at hres; simp at hres
+      | panic s => rw [hm] at hres; simp at hres
+      | outOfFuel s => rw [hm] at hres; simp at hres
+
+theorem basic_rule_sound_env (r : SubRule) (a t : Seg) (hin : r.input = [.ipa a none]) (hout : r.output = [.ipa t none])
+    (hty : r.ruleType = .substitution) (fuel : Nat) (w w' : Word) (hne : NoEmptySyll w) (h : applySubRule fuel r w = .ok w') :
+    Rewrites a t w w' ∧ w'.sylls.length = w.sylls.length := by
+  have hni : r.ruleType ≠ .insertion := by rw [hty]; decide
+  simp only [applySubRule, hni, if_false] at h
+  have := (basic_scan_sound_env r a t hin hout hty fuel w w { si := 0, gi := 0 } hne (Rewrites.refl w) w' h).1
+  exact ⟨this, (rewrites_prosody a t w w' this).1⟩
+
+
+
+/-! ## any single-segment input (`a`, `a:[mods]`, a matrix, a group): what the scan can return -/
+
+/-- the input is one element that matches one segment -/
+def SegItem : Item → Prop
+  | .ipa _ _ => True
+  | .matrix _ _ => True
+  | _ => False
+
+theorem skipRun_ok (w : Word) (p : SegPos) (h : w.inB p = true) : ∃ q, skipRun w p = .ok q := by
+  obtain ⟨L, hL⟩ := C06.segLen_of_inB w p h
+  exact ⟨incN w (L - 1) p, by simp [skipRun, hL]⟩
+
+/-- one item step of a single-segment input: a hit captures exactly the position it was asked about -/
+theorem inMatchItem_seg (fuel : Nat) (w : Word) (it : Item) (hit : SegItem it) (pos : SegPos) (b : Binds) (hb : w.inB pos = true)
+    (r : IR) (h : inMatchItem (fuel + 1) w [it] [] 0 pos b = .ok r) :
+    (r.ok = true ∧ r.caps = [.segment pos none] ∧ r.si = 1) ∨ (r.ok = false ∧ r.caps = [] ∧ r.si = 0) := by
+  obtain ⟨seg, hseg⟩ := C06.segAt_of_inB w pos hb
+  obtain ⟨q, hq⟩ := skipRun_ok w pos hb
+  cases it with
+  | ipa s m =>
+    simp only [inMatchItem, List.getElem?_cons_zero, inMatchIpa, hseg] at h
+    cases m with
+    | none =>
+      simp only [Outcome.pure_eq, Outcome.bind_ok, hq] at h
+      by_cases hs : s = seg
+      · simp [hs] at h; subst h; left; exact ⟨rfl, rfl, rfl⟩
+      · simp [hs] at h; subst h; right; exact ⟨rfl, rfl, rfl⟩
+    | some m =>
+      cases hm : matchModifiers w (joinMods s m) pos b with
+      | ok res =>
+        obtain ⟨hitb, b1⟩ := res
+        simp only [hm, Outcome.bind_ok, hq, Outcome.pure_eq] at h
+        cases hitb
+        · simp at h; subst h; right; exact ⟨rfl, rfl, rfl⟩
+        · simp at h; subst h; left; exact ⟨rfl, rfl, rfl⟩
+      | err e => simp [hm] at h
+      | panic e => simp [hm] at h
+      | outOfFuel e => simp [hm] at h
+  | matrix m v =>
+    simp only [inMatchItem, List.getElem?_cons_zero, inMatchMatrix] at h
+    cases hm : matchModifiers w m pos b with
+    | ok res =>
+      obtain ⟨hitb, b1⟩ := res
+      simp only [hm, Outcome.bind_ok, hq] at h
+      cases hitb
+      · simp at h; subst h; right; exact ⟨rfl, rfl, rfl⟩
+      · simp [hseg] at h; subst h; left; exact ⟨rfl, rfl, rfl⟩
+    | err e => simp [hm] at h
+    | panic e => simp [hm] at h
+    | outOfFuel e => simp [hm] at h
+  | _ => exact absurd hit (by simp [SegItem])
+
+/-- the scan for a single-segment input: when it returns, it returns no match or exactly one in-bounds capture -/
+theorem scan_single (w : Word) (it : Item) (hit : SegItem it) :
+    ∀ (fuel : Nat) (cur : SegPos) (b : Binds) (res : List MatchEl × Option SegPos × Option SegPos × Bool × Binds),
+      inMatchAtLoop [it] fuel w cur none 0 [] b = .ok res →
+      (res.1 = [] ∧ res.2.2.2.1 = false) ∨ (∃ p nx, res.1 = [.segment p none] ∧ res.2.1 = some nx ∧ res.2.2.2.1 = true ∧ w.inB p = true) := by
+  intro fuel
+  induction fuel with
+  | zero => intro cur b res h; simp [inMatchAtLoop] at h
+  | succ fuel ih =>
+    intro cur b res h
+    cases hb : w.inB cur with
+    | false =>
+      simp [inMatchAtLoop, hb] at h
+      subst h; left; exact ⟨rfl, rfl⟩
+    | true =>
+      cases fuel with
+      | zero => simp [inMatchAtLoop, hb, inMatchItem] at h
+      | succ fuel =>
+        rw [inMatchAtLoop] at h
+        simp only [hb, Bool.not_true, Bool.false_eq_true, if_false] at h
+        cases hi : inMatchItem (fuel + 1) w [it] [] 0 cur b with
+        | ok r =>
+          rw [hi] at h
+          simp only [Outcome.bind_ok] at h
+          rcases inMatchItem_seg fuel w it hit cur b hb r hi with ⟨h1, h2, h3⟩ | ⟨h1, h2, h3⟩
+          · simp [h1, h3] at h
+            subst h
+            right
+            exact ⟨cur, _, h2, rfl, rfl, hb⟩
+          · simp [h1] at h
+            exact ih _ _ res h
+        | err e => rw [hi] at h; simp at h
+        | panic e => rw [hi] at h; simp at h
+        | outOfFuel e => rw [hi] at h; simp at h
+
+
+
+/-! ## a feature-changing rule `X > [features]` keeps the shape of the word -/
+
+/-- same number of syllables, and in every syllable the same number of segments, the same stress and the same tone -/
+def SameShape (w w' : Word) : Prop :=
+  w'.sylls.length = w.sylls.length ∧
+  ∀ i : Nat, (w'.sylls[i]?).map (fun σ : Syll => (σ.segs.length, σ.stress, σ.tone)) = (w.sylls[i]?).map (fun σ : Syll => (σ.segs.length, σ.stress, σ.tone))
+
+theorem sameShape_refl (w : Word) : SameShape w w := ⟨rfl, fun _ => rfl⟩
+
+theorem sameShape_trans {w1 w2 w3 : Word} (h12 : SameShape w1 w2) (h23 : SameShape w2 w3) : SameShape w1 w3 :=
+  ⟨h23.1.trans h12.1, fun i => (h23.2 i).trans (h12.2 i)⟩
+
+theorem sameShape_setSyll (w : Word) (i : Nat) (σ σ' : Syll) (hσ : w.sylls[i]? = some σ)
+    (h1 : σ'.stress = σ.stress) (h2 : σ'.tone = σ.tone) (h3 : σ'.segs.length = σ.segs.length) : SameShape w (setSyll w i σ') := by
+  refine ⟨by simp [setSyll], ?_⟩
+  intro j
+  have hlen : i < w.sylls.length := (List.getElem?_eq_some_iff.mp hσ).1
+  by_cases hj : j = i
+  · subst hj; simp [setSyll, hσ, List.getElem?_set_self hlen, h1, h2, h3]
+  · simp [setSyll, List.getElem?_set_ne (Ne.symm hj)]
+
+theorem noEmptySyll_of_sameShape (w w' : Word) (h : SameShape w w') (hne : NoEmptySyll w) : NoEmptySyll w' := by
+  intro τ hτ
+  obtain ⟨i, hi, rfl⟩ := List.getElem_of_mem hτ
+  have h2 := h.2 i
+  have hi' : i < w.sylls.length := h.1 ▸ hi
+  simp [List.getElem?_eq_getElem hi, List.getElem?_eq_getElem hi'] at h2
+  intro hnil
+  have : (w.sylls[i]).segs ≠ [] := hne _ (List.getElem_mem hi')
+  have hl : (w'.sylls[i]).segs.length = 0 := by rw [hnil]; rfl
+  rw [h2.1] at hl
+  exact this (List.eq_nil_of_length_eq_zero hl)
+
+/-- **one step of `X > [features]`** (output: one matrix naming no length, stress or tone, no variable): if the step
+    returns, the word has the same shape, and only the syllable of the match was touched -/
+theorem substitution_matrix_step (r : SubRule) (w : Word) (sp : SegPos) (mods : Modifiers) (inItem : Item) (σ : Syll) (b : Binds)
+    (next : Option SegPos)
+    (hin : r.input = [inItem]) (hout : r.output = [.matrix mods none]) (hs : mods.suprs = {})
+    (hσ : w.sylls[sp.si]? = some σ) (hgi : sp.gi < σ.segs.length) (hwf : NoEmptySyll w)
+    (res : Word × Option SegPos × Binds) (h : substitution r w [.segment sp none] next b = .ok res) :
+    ∃ σ', res.1 = setSyll w sp.si σ' ∧ σ'.stress = σ.stress ∧ σ'.tone = σ.tone ∧ σ'.segs.length = σ.segs.length := by
+  have hlen : sp.si < w.sylls.length := (List.getElem?_eq_some_iff.mp hσ).1
+  have hrep : (List.replicate w.sylls.length (0 : Int))[sp.si]? = some 0 := by
+    rw [List.getElem?_replicate]; simp [hlen]
+  have hseglen : w.segLen sp = .ok (σ.segLengthAt sp.gi) := by simp [Word.segLen, Word.segLengthAt, hσ]
+  unfold substitution at h
+  simp only [hin, hout, List.length_singleton] at h
+  cases hm : σ.applySegMods b.alphas mods sp.gi with
+  | ok r3 =>
+    obtain ⟨σ', al, lc⟩ := r3
+    obtain ⟨h1, h2, h3, h4⟩ := C14.applySegMods_noSupra σ σ' b.alphas al mods sp.gi lc hs hm
+    subst h4
+    have hpairs : substPairs r 1 1 0 [inItem] [.matrix mods none] [.segment sp none]
+        { w := w, tlc := List.replicate w.sylls.length 0, last := { si := 0, gi := 0 }, b := b } =
+        .ok { w := setSyll w sp.si σ', tlc := (List.replicate w.sylls.length (0 : Int)).set sp.si (0 + 0),
+              last := bumpRun sp (σ.segLengthAt sp.gi) 0 1 1 0, b := { b with alphas := al } } := by
+      simp [substPairs, substStep, adjust, tlcGet, hrep, hseglen, applySegModsVar, getSyll, hσ, hm, tlcAdd]
+    rw [hpairs] at h
+    simp only [Outcome.bind_ok, Nat.lt_irrefl, if_false, Outcome.pure_eq] at h
+    -- the last syllable of the result is not empty
+    have hshape := sameShape_setSyll w sp.si σ σ' hσ h1 h2 h3
+    have hne' := noEmptySyll_of_sameShape w _ hshape hwf
+    have hnn : (setSyll w sp.si σ').sylls ≠ [] := by
+      intro hnil
+      have h0 : (setSyll w sp.si σ').sylls.length = 0 := by rw [hnil]; rfl
+      simp only [setSyll, List.length_set] at h0
+      omega
+    have hl2 : ((setSyll w sp.si σ').sylls.getLast hnn).segs.isEmpty = false := by
+      have := hne' _ (List.getLast_mem hnn)
+      cases hs2 : ((setSyll w sp.si σ').sylls.getLast hnn).segs with
+      | nil => exact absurd hs2 this
+      | cons a as => rfl
+    rw [List.getLast?_eq_some_getLast hnn] at h
+    simp only [hl2, Bool.false_eq_true, if_false] at h
+    cases h
+    exact ⟨σ', rfl, h1, h2, h3⟩
+  | err e =>
+    have : substPairs r 1 1 0 [inItem] [.matrix mods none] [.segment sp none]
+        { w := w, tlc := List.replicate w.sylls.length 0, last := { si := 0, gi := 0 }, b := b } = .err e := by
+      simp [substPairs, substStep, adjust, tlcGet, hrep, hseglen, applySegModsVar, getSyll, hσ, hm]
+    rw [this] at h; simp at h
+  | panic e =>
+    have : substPairs r 1 1 0 [inItem] [.matrix mods none] [.segment sp none]
+        { w := w, tlc := List.replicate w.sylls.length 0, last := { si := 0, gi := 0 }, b := b } = .panic e := by
+      simp [substPairs, substStep, adjust, tlcGet, hrep, hseglen, applySegModsVar, getSyll, hσ, hm]
+    rw [this] at h; simp at h
+  | outOfFuel e =>
+    have : substPairs r 1 1 0 [inItem] [.matrix mods none] [.segment sp none]
+        { w := w, tlc := List.replicate w.sylls.length 0, last := { si := 0, gi := 0 }, b := b } = .outOfFuel e := by
+      simp [substPairs, substStep, adjust, tlcGet, hrep, hseglen, applySegModsVar, getSyll, hσ, hm]
+    rw [this] at h; simp at h
+
+
+
+theorem inputMatchAt_single (w : Word) (it : Item) (hit : SegItem it) (fuel : Nat) (cur : SegPos)
+    (out : List MatchEl × Option SegPos × Binds) (h : inputMatchAt fuel [it] w cur {} = .ok out) :
+    out.1 = [] ∨ (∃ p nx, out.1 = [.segment p none] ∧ out.2.1 = some nx ∧ w.inB p = true) := by
+  unfold inputMatchAt at h
+  cases hl : inMatchAtLoop [it] fuel w cur none 0 [] {} with
+  | ok res =>
+    obtain ⟨caps, next, mb, full, b1⟩ := res
+    rw [hl] at h
+    simp only [Outcome.bind_ok] at h
+    rcases scan_single w it hit fuel cur {} _ hl with ⟨h1, h2⟩ | ⟨p, nx, h1, h2, h3, h4⟩
+    · simp only at h1 h2
+      subst h1; subst h2
+      cases mb with
+      | none => simp at h; subst h; left; rfl
+      | some x =>
+        cases it with
+        | ipa s m => simp at h; subst h; left; rfl
+        | matrix m v => simp at h; subst h; left; rfl
+        | _ => exact absurd hit (by simp [SegItem])
+    · simp only at h1 h2 h3
+      subst h1; subst h2; subst h3
+      simp at h; subst h
+      right; exact ⟨p, nx, rfl, rfl, h4⟩
+  | err e => rw [hl] at h; simp at h
+  | panic e => rw [hl] at h; simp at h
+  | outOfFuel e => rw [hl] at h; simp at h
+
+/-- **a feature-changing rule keeps the shape of the word**: `X > [features] / any environment`, with `X` one segment
+    element (a literal, a literal with modifiers, a matrix, a group) and the output one matrix that names no length,
+    stress or tone.  Whatever the word and however many matches: if the sub-rule returns a word, it has the same
+    syllables, each with the same number of segments, the same stress and the same tone. -/
+theorem feature_rule_keeps_shape (r : SubRule) (it : Item) (hit : SegItem it) (mods : Modifiers)
+    (hin : r.input = [it]) (hout : r.output = [.matrix mods none]) (hs : mods.suprs = {}) (hty : r.ruleType = .substitution) :
+    ∀ (fuel : Nat) (w0 w : Word) (cur : SegPos), NoEmptySyll w → SameShape w0 w →
+      ∀ w', applyLoop r fuel w cur = .ok w' → SameShape w0 w' ∧ NoEmptySyll w' := by
+  intro fuel
+  induction fuel with
+  | zero => intro w0 w cur _ _ w' h; simp [applyLoop] at h
+  | succ fuel ih =>
+    intro w0 w cur hne hsh w' hres
+    rw [applyLoop] at hres
+    cases hi : inputMatchAt fuel r.input w cur {} with
+    | ok out =>
+      obtain ⟨caps, next, b1⟩ := out
+      rw [hi] at hres
+      simp only [Outcome.bind_ok] at hres
+      rw [hin] at hi
+      rcases inputMatchAt_single w it hit fuel cur _ hi with h1 | ⟨p, nx, h1, h2, hinb⟩
+      · simp only at h1; subst h1
+        simp at hres; subst hres; exact ⟨hsh, hne⟩
+      · simp only at h1 h2; subst h1; subst h2
+        obtain ⟨L, hL⟩ := C06.segLen_of_inB w p hinb
+        have hσ : ∃ σ, w.sylls[p.si]? = some σ ∧ p.gi < σ.segs.length := by
+          unfold Word.inB Word.inBounds at hinb
+          cases hs2 : w.sylls[p.si]? with
+          | none => simp [hs2] at hinb
+          | some σ => simp [hs2] at hinb; exact ⟨σ, rfl, hinb⟩
+        obtain ⟨σ, hσ1, hσ2⟩ := hσ
+        simp only [List.isEmpty_cons, Bool.false_eq_true, if_false, matchSpan, List.head?_cons, List.getLast?_singleton, hL,
+          Outcome.bind_ok, Outcome.pure_eq] at hres
+        cases hm : matchContextsAndExceptions fuel r w p (incN w (L - 1) p) true b1 with
+        | ok res =>
+          obtain ⟨okb, b2⟩ := res
+          rw [hm] at hres
+          simp only [Outcome.bind_ok] at hres
+          cases okb with
+          | false =>
+            simp only [Bool.not_false, if_true] at hres
+            exact ih w0 w nx hne hsh w' hres
+          | true =>
+            simp only [Bool.not_true, Bool.false_eq_true, if_false, transform, hty] at hres
+            cases hsub : substitution r w [.segment p none] (some nx) b2 with
+            | ok sres =>
+              rw [hsub] at hres
+              simp only [Outcome.bind_ok] at hres
+              obtain ⟨σ', e1, e2, e3, e4⟩ := substitution_matrix_step r w p mods it σ b2 (some nx) hin hout hs hσ1 hσ2 hne sres hsub
+              have hstep := sameShape_setSyll w p.si σ σ' hσ1 e2 e3 e4
+              rw [← e1] at hstep
+              have hsh' := sameShape_trans hsh hstep
+              have hne' := noEmptySyll_of_sameShape w sres.1 hstep hne
+              cases hnx : sres.2.1 with
+              | none => rw [hnx] at hres; simp at hres; subst hres; exact ⟨hsh', hne'⟩
+              | some ci => rw [hnx] at hres; exact ih w0 sres.1 ci hne' hsh' w' hres
+            | err e => rw [hsub] at hres; simp at hres
+            | panic e => rw [hsub] at hres; simp at hres
+            | outOfFuel e => rw [hsub] at hres; simp at hres
+        | err e => rw [hm] at hres; simp at hres
+        | panic s => rw [hm] at hres; simp at hres
+        | outOfFuel s => rw [hm] at hres; simp at hres
+    | err e => rw [hi] at hres; simp at hres
+    | panic e => rw [hi] at hres; simp at hres
+    | outOfFuel e => rw [hi] at hres; simp at hres
+
+/-- the same for `SubRule::apply` -/
+theorem feature_subrule_keeps_shape (r : SubRule) (it : Item) (hit : SegItem it) (mods : Modifiers)
+    (hin : r.input = [it]) (hout : r.output = [.matrix mods none]) (hs : mods.suprs = {}) (hty : r.ruleType = .substitution)
+    (fuel : Nat) (w w' : Word) (hne : NoEmptySyll w) (h : applySubRule fuel r w = .ok w') : SameShape w w' := by
+  have hni : r.ruleType ≠ .insertion := by rw [hty]; decide
+  simp only [applySubRule, hni, if_false] at h
+  exact (feature_rule_keeps_shape r it hit mods hin hout hs hty fuel w w { si := 0, gi := 0 } hne (sameShape_refl w) w' h).1
+
 
 end Asca.C03
